@@ -61,13 +61,16 @@ def run_case(case):
         cfid = ccons[0]["factors"][0] if ccons else None
         state = {"attempt": 0, "trial": 0, "attempts_per_seq": []}
         order = [f["id"] for f in conts]
-        orig_sample = blk._sample_continuous
+        orig_sample = getattr(blk, "_sample_continuous", None)
+        state["hooked"] = orig_sample is not None
 
-        def sample_hook(num, trial):
+        def sample_hook(*a, **k):
+            # one call = one whole-sequence attempt; whatever arguments the library passes are handed on unchanged
             state["attempt"] += 1
             state["uniform_calls"] = 0
-            return orig_sample(num, trial)
-        blk._sample_continuous = sample_hook
+            return orig_sample(*a, **k)
+        if orig_sample is not None:
+            blk._sample_continuous = sample_hook
 
         def script(site, params):
             u = w.rng.rng.random()
@@ -133,10 +136,12 @@ def run_case(case):
                                       "sequence %d factor %s trial %d: returned %r, recomputed from the returned rows %r (dist=%s)" % (si, f["name"], t, got[t], want[t], json.dumps(d)[:300])))
                         break
         attempts = state["attempt"]
-        if ccons and not same_params and not viols and res:
+        if ccons and not same_params and not viols and res and state["hooked"]:
+            # bounded liveness only: the script makes exactly r attempts per sequence fail, so r+1 suffice; the statement
+            # does not say how attempts are organised, so only a runaway resampling loop is a violation
             want_attempts = (case["r"] + 1) * len(res)
-            if attempts != want_attempts:
-                viols.append(("C22/attempt-count", "%d whole-sequence attempts for %d sequences with %d scripted failures each (expected %d)" % (attempts, len(res), case["r"], want_attempts)))
+            if attempts > 8 * want_attempts + 8:
+                viols.append(("C22/LIVENESS/attempt-count", "%d whole-sequence attempts for %d sequences with %d scripted failures each (%d suffice)" % (attempts, len(res), case["r"], want_attempts)))
         base = common.result_base(w, key=str((tuple((f["dist"]["kind"], len(f["dist"].get("deps", [])), bool(f["dist"].get("cumulative"))) for f in conts), case["r"])),
                                   nontrivial=bool(res) and (dependent > 0 or bool(ccons)),
                                   summary={"design": dast.describe(ast), "continuous": [f["dist"] for f in conts][:3], "r": case["r"],
